@@ -59,3 +59,33 @@ void h_shortcircuit(void)
     __CPROVER_assert(guarded, "C02.cg.shortcircuit the right operand is skipped by a conditional jump on the left operand's value");
     VERIF_COVER(L.as.bool_val);
 }
+
+/* C02.cg.order.<op> : for every strict binary operator the code of the LEFT operand comes first, then the RIGHT operand's, then
+ * exactly the opcode of that operator (operands are marker literals, so their code is recognisable): evaluation order is left to
+ * right on the VM as in the interpreter (C03.order.*) and in the emitted C, and `a > b` is not compiled as `b < a`. */
+#ifdef VERIF_BIN_TOKEN
+#define MARK_L ((int64_t)0x0102030405060708LL)
+void h_order(void)
+{
+    CG *cg = malloc(sizeof(CG)); __CPROVER_assume(cg != NULL);
+    cg->had_error = false;
+    cg->code_cap = 256; cg->code_size = 7;
+    cg->code = malloc(cg->code_cap); __CPROVER_assume(cg->code != NULL);
+    ASTNode L = { .type = AST_NUMBER, .as.number = MARK_L }, R = { .type = AST_NUMBER, .as.number = MARK };
+    ASTNode *args[2] = { &L, &R };
+    ASTNode N = { .type = AST_PREFIX_OP, .as.prefix_op = { .op = VERIF_BIN_TOKEN, .args = args, .arg_count = 2 } };
+    uint32_t off0 = cg->code_size;
+    compile_expr(cg, &N);
+    __CPROVER_assert(!cg->had_error, "C02.cg.order no code generation error");
+    uint32_t end = cg->code_size;
+    __CPROVER_assert(end == off0 + 9 + 9 + 1, "C02.cg.order exactly PUSH_I64 left, PUSH_I64 right, operator");
+    DecodedInstruction a, b, c;
+    uint32_t n1 = isa_decode(cg->code + off0, end - off0, &a);
+    uint32_t n2 = isa_decode(cg->code + off0 + 9, end - off0 - 9, &b);
+    uint32_t n3 = isa_decode(cg->code + off0 + 18, end - off0 - 18, &c);
+    __CPROVER_assert(n1 == 9 && a.opcode == OP_PUSH_I64 && a.operands[0].i64 == MARK_L, "C02.cg.order the LEFT operand is evaluated first");
+    __CPROVER_assert(n2 == 9 && b.opcode == OP_PUSH_I64 && b.operands[0].i64 == MARK, "C02.cg.order the RIGHT operand is evaluated second");
+    __CPROVER_assert(n3 == 1 && c.opcode == VERIF_BIN_OPCODE, "C02.cg.order the operator's own opcode follows (no operand swap with a mirrored operator)");
+    VERIF_COVER(end == 26);
+}
+#endif
